@@ -34,7 +34,9 @@ type scnCall struct {
 var scnOnCall func(out string)
 
 
+// (scnTest.PlainSkip: after its calls the test ends through the testing package's own t.Skip - not snaps.Skip: no protection)
 type scnTest struct {
+	PlainSkip bool `json:"ends_with_plain_t_skip,omitempty"`
 	Name     string    `json:"name"`
 	Calls    []scnCall `json:"calls"`
 	SkipAt   int       `json:"skip_at"` // -1: never; k: snaps.Skip* is called before call index k
@@ -58,6 +60,11 @@ type cleanScn struct {
 	Cfgs    []CfgSpec    `json:"cfgs"`
 	Tests   []scnTest    `json:"tests"`
 	Stale   []staleEntry `json:"stale_entries"`
+	// RunUpdate (per config, "" | "true" | "false"): the Update option the configs carry in the RUN (not while recording):
+	// what Clean may do follows UPDATE_SNAPS and CI alone
+	RunUpdate []string `json:"update_option_of_the_configs_in_the_run,omitempty"`
+	// ForeignTmp: during Clean TMPDIR points to another file system than the snapshot directories
+	ForeignTmp bool `json:"tmpdir_on_another_file_system_during_clean,omitempty"`
 	Extra   []extraItem  `json:"extra_items"`
 	Mode    Mode         `json:"mode"`
 	Sort    bool         `json:"sort"`
@@ -103,7 +110,7 @@ func genCleanScn(t *rapid.T, col *collector, so scnOpts) cleanScn {
 	s.MainDir = mainDir
 	s.Cfgs = []CfgSpec{{Dir: "snaps", Filename: "f", DirStyle: rapid.SampledFrom([]string{"", "", "", "trailing", "dot", "dotdot", "double"}).Draw(t, "dirstyle")}}
 	if rapid.Bool().Draw(t, "cfg2") {
-		s.Cfgs = append(s.Cfgs, CfgSpec{Dir: "snaps", Filename: "g", Ext: rapid.SampledFrom([]string{".txt", ".json", ".snap", ""}).Draw(t, "ext2")})
+		s.Cfgs = append(s.Cfgs, CfgSpec{Dir: "snaps", Filename: rapid.SampledFrom([]string{"g", "g", "v1.snapshots"}).Draw(t, "fn2"), Ext: rapid.SampledFrom([]string{".txt", ".json", ".snap", "", "_golden"}).Draw(t, "ext2")})
 	}
 	if rapid.IntRange(0, 2).Draw(t, "cfg3") == 0 {
 		s.Cfgs = append(s.Cfgs, CfgSpec{Dir: rapid.SampledFrom([]string{"snaps", "other"}).Draw(t, "dir3"), Filename: "", Ext: rapid.SampledFrom([]string{"", ".html"}).Draw(t, "ext3")})
@@ -159,6 +166,13 @@ func genCleanScn(t *rapid.T, col *collector, so scnOpts) cleanScn {
 			st.SkipKind = rapid.SampledFrom([]string{"Skip", "Skipf", "SkipNow"}).Draw(t, "skipkind")
 		}
 		s.Tests = append(s.Tests, st)
+	}
+	if so.rejects {
+		for i := range s.Tests {
+			if s.Tests[i].SkipAt < 0 && rapid.IntRange(0, 5).Draw(t, "plainskip") == 0 {
+				s.Tests[i].PlainSkip = true
+			}
+		}
 	}
 	if so.skips {
 		// test 0 always addresses cfg 0 so that skipped tests never are the sole owner of a file (that is C08/K2)
@@ -233,6 +247,7 @@ func genCleanScn(t *rapid.T, col *collector, so scnOpts) cleanScn {
 			s.Stale = nil
 		}
 	}
+	s.ForeignTmp = rapid.IntRange(0, 4).Draw(t, "foreigntmp") == 0
 	if rapid.IntRange(0, 5).Draw(t, "cpu") == 0 {
 		s.Cpu = rapid.SampledFrom([]string{"1", "1,", "4,", ",2", "1,,", " 2 ,"}).Draw(t, "cpulist")
 	}
@@ -290,6 +305,29 @@ func genCleanScn(t *rapid.T, col *collector, so scnOpts) cleanScn {
 	if s.ReadOnly && !s.Mode.CI && (s.Mode.Update == "true" || s.Mode.Update == "clean") {
 		s.Stale = nil // (the many-files block may have added stale entries)
 		s.Dangling = -1
+	}
+	if so.rejects && rapid.IntRange(0, 2).Draw(t, "runupdate") == 0 {
+		s.RunUpdate = make([]string, len(s.Cfgs))
+		for ci := range s.Cfgs {
+			if s.Cfgs[ci].Update != nil {
+				continue
+			}
+			hasNew := false
+			for _, st := range s.Tests {
+				unrecorded := false // (the recording of a test stops at its first new slot)
+				for _, c := range st.Calls {
+					unrecorded = unrecorded || c.New || c.Ghost
+					if c.Call.Cfg == ci && unrecorded {
+						hasNew = true
+					}
+				}
+			}
+			pool := []string{"", "true", "false"}
+			if hasNew {
+				pool = []string{"", "true"} // (a slot first added in the run needs permission to create)
+			}
+			s.RunUpdate[ci] = rapid.SampledFrom(pool).Draw(t, "runupdatevalue")
+		}
 	}
 	if so.runFilter {
 		tops := map[string]bool{}
@@ -360,6 +398,9 @@ func (s cleanScn) execute(root string, mode Mode, count int, record bool) error 
 	cfgs := make([]*Config, len(s.Cfgs))
 	solos := make([]*Config, len(s.Cfgs))
 	for i, c := range s.Cfgs {
+		if !record && i < len(s.RunUpdate) && s.RunUpdate[i] != "" && c.Update == nil {
+			c.Update = boolp(s.RunUpdate[i] == "true")
+		}
 		cfgs[i] = c.build(root)
 		solos[i] = soloOf(c).build(root)
 	}
@@ -426,6 +467,9 @@ func (s cleanScn) execute(root string, mode Mode, count int, record bool) error 
 			if !record && st.SkipAt == len(st.Calls) {
 				callSkip(func() { Skip(ft, "skipped at the end") })
 				ft.drain()
+			}
+			if !record && st.PlainSkip {
+				ft.plainSkip()
 			}
 			ft.finish()
 		}
@@ -545,7 +589,9 @@ func (s cleanScn) run() (*scnRun, func(), error) {
 		flag.Set("test.cpu", s.Cpu)
 		defer flag.Set("test.cpu", oldCPU)
 	}
+	foreignTmp = s.ForeignTmp
 	out := runClean(s.RunOnly, s.Count, opts...)
+	foreignTmp = false
 	restore()
 	r.afterClean = snapDir(root)
 	sum, err := parseSummary(out)
@@ -771,6 +817,15 @@ func classifyCleanScn(s cleanScn) ([]string, bool) {
 			}
 			if c.Ghost {
 				cls = append(cls, "visited_directory_that_never_came_into_existence")
+			}
+			if s.ForeignTmp {
+				cls = append(cls, "tmpdir_on_another_file_system")
+			}
+			if len(s.RunUpdate) > 0 {
+				cls = append(cls, "configs_carry_an_update_option_in_the_run")
+			}
+			if st.PlainSkip {
+				cls = append(cls, "test_ends_with_plain_t_skip")
 			}
 			if c.Mut == "matcher" || c.Mut == "invalid" {
 				cls = append(cls, "call_rejected_before_the_comparison")
